@@ -5,6 +5,15 @@ Programs (vlib/c11_gen.py: format-tracking "cpp" profile) are loaded through the
 by CppCompiler under every option combination, assembled ~100 kernels per translation unit (vlib/cxx.py),
 built with g++ and run; every returned value is compared bit for bit with Function.__call__ on the same
 arguments and context.
+
+Buckets: `emits-invalid-c++/<g++ message>` (accepted output that g++ rejects; attributed by compiling the kernel
+alone), `aborts/<assert|signal>`, `wrong-<value|zero-sign|bool|length|shape>/<option scope>` where the scope says
+which compiler options the failure depends on (all-options, optimize=O1, unbox=ALLOW+STRICT, ...),
+`rounding-mode-not-restored/at-return/<scope>`, `storage/parameter-type-cannot-hold-format-member`.
+Defects found while building the check (each with a replay under replays/C11 and a patch under proposed_fixes/C11_*):
+float->int rounding out of range, both-arm rebind not hoisted, double literal tokens widening FP32 expression trees,
+callee entry rounding mode not established by compiled callers, narrow-int promotion / unsigned std::abs,
+fp.round(-0.0) folded to +0 at optimize=False, zip/enumerate elimination re-reading a list the loop body writes.
 """
 
 from __future__ import annotations
@@ -28,7 +37,7 @@ from vlib.runner import Result, h64
 PROPERTY = 'C11'
 LEVEL = 'translation_validation'
 RULE = ('Programs: format-tracking generator of FPy source text (vlib/c11_gen.py) -- typed entry signatures (FP32/FP64 scalars and '
-        'lists with pinned or free lengths), contexts FP32/FP64 x {RNE,RTZ,RTP,RTN}, SINT/UINT 8-64, INTEGER, REAL sections over '
+        'lists with pinned or free lengths, integer formats, a 26-bit fixed-point format needing 25 significand bits), contexts FP32/FP64 x {RNE,RTZ,RTP,RTN}, SINT/UINT 8-64, INTEGER, REAL sections over '
         'integer formats, correctly-rounded ops only, loops, branches, tuples, nested and aliased lists, list-mutating helpers, '
         'sum/len/any/all/zip/enumerate/range, comprehensions; fp.round inserted wherever a value crosses into a narrower format. '
         'Each program is compiled under optimize x unbox{NEVER,ALLOW,STRICT} x arrays (12 option sets) plus unsafe_cast_int=False, '
@@ -470,7 +479,7 @@ class Prepared:
         if not compiled:
             return
         res.cls('accepted-any')
-        if len(compiled) >= 12:
+        if sum(1 for n in compiled if not n.endswith('safeint')) == 12:
             res.cls('accepted-all-12')
 
         # --- oracle: interpreter on every input
